@@ -8,7 +8,7 @@ from pwv.core import Result, lib
 
 ID = 'C08'
 RULE = ('Hypothesis draws (order 1/2, filter family incl. band-pass variants, magnitude bias from {0,1e-6,1e-3,1e-2,1,10} or a '
-        'generated float, combine_colour, N in 1..3, C (3 with colour), H,W in 2..40, input recipe incl. all-zero / sparse / '
+        'generated float, combine_colour, N in 1..3, C (3 with colour), H,W in 2..40, input recipe incl. all-zero / sparse / oriented gratings / '
         '1e+-4 scaling / constant; for second-order sizes that are not multiples of 8 an edge-constant image so that every '
         '"repeat the border" extension coincides). Oracle: the reference dtcwt.numpy transform composed with the formulas of '
         'the statement in float64 (full value comparison on even sizes / multiples of 8, on the last-row/column-repeated '
@@ -48,9 +48,10 @@ def _case(draw, unit):
         size = [draw(sz), draw(sz)]
     return {'order': order, 'biort': b, 'qshift': q, 'colour': colour, 'bias': draw(scatu.bias_strategy()),
             'N': draw(st.sampled_from([1, 2, 3, 3, 5])), 'C': 3 if colour else draw(st.sampled_from([1, 2, 3, 3, 6])),
+            'eval': draw(st.integers(0, 3)) == 0, 'ctx': draw(st.sampled_from(core.GRAD_CTXS)),
             'size': size,
             'rx': draw(core.recipe_strategy(kinds=['gaussian', 'gaussian', 'gaussian', 'sparse', 'constant', 'zeros',
-                                                   'ramp', 'spike', 'ints'], scales=(0, 0, 0, 4, -4)))}
+                                                   'ramp', 'spike', 'ints', 'grating', 'grating'], scales=(0, 0, 0, 4, -4)))}
 
 
 def strategy(unit):
@@ -65,7 +66,7 @@ def edge_constant(recipe, N, C, H, W):
     return np.pad(core_img, ((0, 0), (0, 0), (pt, H - hi - pt), (pl, W - wi - pl)), mode='edge')
 
 
-def make_layer(case, dtype=torch.float64):
+def _make_layer(case, dtype=torch.float64):
     from pytorch_wavelets import ScatLayer, ScatLayerj2
     with dwtu.default_dtype(dtype):
         if case['order'] == 1:
@@ -73,6 +74,13 @@ def make_layer(case, dtype=torch.float64):
                              mode=case.get('mode', 'symmetric'))
         return ScatLayerj2(biort=case['biort'], qshift=case['qshift'], magbias=case['bias'],
                            combine_colour=case['colour'])
+
+
+def make_layer(case, dtype=torch.float64):
+    layer = _make_layer(case, dtype)
+    if case.get('eval'):
+        layer.eval()            # the layers have no train/eval distinction: nothing may change
+    return layer
 
 
 def reference(case, x, any_split=False):
@@ -123,7 +131,9 @@ def run_case(case):
             'zero_input' if not nonzero else None, 'kind_' + case['rx']['kind'])
     r.nontrivial = nonzero and (not multiple or colour or bp or bias != 1e-2)
     layer = make_layer(case)
-    ok, out = lib(layer, torch.tensor(x))
+    r.label('eval_mode' if case.get('eval') else None, 'ctx_' + case['ctx'] if case.get('ctx', 'default') != 'default' else None)
+    with core.grad_ctx(case.get('ctx')):
+        ok, out = lib(layer, torch.tensor(x))
     if not ok:
         if kf10 and core.kf_open('KF-D10', ID):
             return r.known('KF-D10', 'ScatLayerj2 raised on H or W == 2: %s' % out)
@@ -163,6 +173,16 @@ def run_case(case):
         r.fail('values:order%d%s%s' % (order, ':colour' if colour else '', ':bp' if bp else ''),
                'differs from the reference composition: ' + core.first_mismatch(z, allrefs[i], tol))
     r.metric('abs_err_over_scale', min(errs) / max(g * core.maxabs(x) + bias, 1e-300))
+    # the same call while autograd is recording must give the same numbers
+    ok, outg = lib(layer, torch.tensor(x).requires_grad_(True))
+    if not ok:
+        r.fail(outg.bucket, 'scattering layer raised when the input requires grad: %s' % outg)
+    else:
+        zg = outg.detach().numpy()
+        if zg.shape != z.shape or not core.close(zg, z, 1e-12 * (g * core.maxabs(x) + bias) + 1e-300)[0]:
+            r.fail('depends_on_autograd_recording:order%d' % order, 'the output differs between a plain call and a call '
+                   'whose input requires grad: ' + (core.first_mismatch(zg, z, 1e-12 * (g * core.maxabs(x) + bias) + 1e-300)
+                                                    if zg.shape == z.shape else 'shapes %s vs %s' % (zg.shape, z.shape)))
     mask = scatu.magnitude_mask(order, C, colour, z.shape[1])
     zm = z[:, mask]
     if zm.size and zm.min() < -2 * core.EPS64 * max(bias, 0.0) - 0.0:
